@@ -48,6 +48,7 @@ func runC09(run *Run, replay string) {
 		} else {
 			sc, cfg = tfScenario(r)
 		}
+		blockAddrCases(run, blockAddrScenario(r), 12)
 		d, _ := sc.W.Dec.Path(sc.Main.Path)
 		res := safeCall("CollectReferenceTargets", func() (interface{}, error) { return d.CollectReferenceTargets() })
 		run.Res.Evaluations++
